@@ -149,6 +149,22 @@ func (vc *VC) define(prefix, sort, term string) string {
 	return n
 }
 
+// checkedGoal evaluates a clause of the function under verification in a position where it is
+// CHECKED. A clause that cannot be evaluated on the current code (a local it names is gone or
+// has another type) is not established: its goal is false, and the reason is returned. (In
+// assumed positions such a clause is an engine error, or, for loop invariants, is dropped,
+// since the corresponding entry/step obligation already fails.)
+func (vc *VC) checkedGoal(ctx *SpecCtx, e SExpr) (string, string) {
+	n := len(vc.errs)
+	g := ctx.evalBool(e)
+	if len(vc.errs) > n {
+		why := strings.Join(vc.errs[n:], "; ")
+		vc.errs = vc.errs[:n]
+		return "false", " [the clause cannot be evaluated on the current code: " + why + "]"
+	}
+	return g, ""
+}
+
 func (vc *VC) siteName(kind string) string {
 	vc.sites[kind]++
 	return fmt.Sprintf("%s#%d", kind, vc.sites[kind])
